@@ -1178,6 +1178,9 @@ func (x *seqExec) checkDataFiles() {
 					if string(km.Key) != string(rec.Key) {
 						continue
 					}
+					if km.Collide && ok {
+						okv = true // writes of a collision group taken out of the comparison are not recorded
+					}
 					for _, w := range km.Writes {
 						if ok && !w.Tomb && string(w.Val) == string(v) {
 							okv = true
